@@ -164,6 +164,54 @@ Definition delete (s : st) (b : nat) (offset length : Z) (to_proxy : bool) : res
   end.
 
 (* ------------------------------------------------------------------ insert *)
+(* split at the offset, split off and remove the replaced middle *)
+Definition insert_split (s : st) (b : nat) (offset repl : Z) : result (nat * option edge * st) :=
+  do '(end_block, added_ft, s) <- split_block s b offset;
+  do '(end_block, s) <-
+    (if negb (repl =? 0) then
+       do '(e2, ig5, s) <- split_block s end_block repl;
+       do '(ig6, s) <- remove_block s end_block false;
+       Ok (e2, s)
+     else Ok (end_block, s));
+  Ok (end_block, added_ft, s).
+
+(* stitch the patch into the CFG *)
+Definition insert_stitch (s : st) (b first last : nat) (lastk : bkind) (end_block : nat) (added_ft : option edge) : st :=
+  let s := match added_ft with Some _ => update_fallthrough_target s b first | None => s end in
+  if is_code s end_block && bkind_eqb lastk KCode
+  then set_cfg s (cfg_add (mk_edge' (NB last) (NB end_block) ET_FALLTHROUGH) (cfg s)) else s.
+
+(* the patch's blocks, expressions, edges, symbols, proxies, tables *)
+Definition insert_contents (s : st) (b bi : nat) (base : Z) (code : bool) (p : patch) (pcfg : list edge) (pprox : list nat) : st :=
+  let s := fold_left (fun s pb => let '(id, k, o, sz) := pb in set_blk s id (mk_blk k (Some bi) (base + o) sz)) (p_blocks p) s in
+  let iv := the_ival s bi in
+  let s := set_ivals s (aset bi (mk_ival (isect iv) (icontents iv) (dupdate (isymex iv) (drekey (fun k => base + k) (p_symex p)))) (ivals s)) in
+  let s := order_insert_after s b (pblock_ids p) in
+  let s := set_cfg s (fold_left (fun c e => cfg_add e c) pcfg (cfg s)) in
+  let s := set_rcache s (mk_rc (refs (rcache s)) (stab (rcache s) ++ p_syms p)) in
+  let s := set_proxies s (fold_left (fun l q => nadd q l) pprox (proxies s)) in
+  let s := set_align s (fold_left (fun a kv => aset (fst kv) (snd kv) a) (p_align p) (align s)) in
+  let s := set_misc s (map (fun it => let '(i, t) := it in if Nat.eqb i 1 then fold_left (fun l q => nadd q l) (p_encodings p) t else t)
+                           (combine (seq 0 (List.length (misc s))) (misc s))) in
+  let s := set_cfi s (fold_left (fun c kv => aset (fst kv) (snd kv) c) (p_cfi p) (cfi s)) in
+  let s := if code then
+             match aget b (fbb s) with
+             | Some f => fold_left (fun s pb => let '(id, k, _, _) := pb in
+                                                if bkind_eqb k KCode then add_function_block_aux s id f else s) (p_blocks p) s
+             | None => s
+             end
+           else s in
+  (* symbolicExpressionSizes is table 2, keyed by the interval *)
+  set_otabs s (map (fun it => let '(i, t) := it in
+                              if Nat.eqb i 2 then
+                                match p_symsizes p with
+                                | [] => t
+                                | _ => aset bi (dupdate (match aget bi t with Some d => d | None => [] end)
+                                                        (drekey (fun k => base + k) (p_symsizes p))) t
+                                end
+                              else t)
+                   (combine (seq 0 (List.length (otabs s))) (otabs s))).
+
 Definition insert (s : st) (b : nat) (offset repl : Z) (p : patch) : result (nat * st) :=
   let x := the_blk s b in
   if negb (negb (bsize x =? 0) && (0 <=? offset) && (offset <=? bsize x) && (0 <=? offset + repl) && (offset + repl <=? bsize x) && (0 <=? repl))
@@ -172,49 +220,11 @@ Definition insert (s : st) (b : nat) (offset repl : Z) (p : patch) : result (nat
   | Some bi, (first, _, _, _) :: _, (last, lastk, _, _) :: _ =>
     let '(s, pcfg) := add_return_edges_for_patch_calls s (p_cfg p) in
     let '(pcfg, pprox) := if bkind_eqb (bk x) KCode then update_patch_return_edges s b pcfg (p_proxies p) else (pcfg, p_proxies p) in
-    do '(end_block, added_ft, s) <- split_block s b offset;
-    do '(end_block, s) <-
-      (if negb (repl =? 0) then
-         do '(e2, ig5, s) <- split_block s end_block repl;
-         do '(ig6, s) <- remove_block s end_block false;
-         Ok (e2, s)
-       else Ok (end_block, s));
-    (* stitch the patch into the CFG *)
-    let s := match added_ft with Some _ => update_fallthrough_target s b first | None => s end in
-    let s := if is_code s end_block && bkind_eqb lastk KCode
-             then set_cfg s (cfg_add (mk_edge' (NB last) (NB end_block) ET_FALLTHROUGH) (cfg s)) else s in
+    do '(end_block, added_ft, s) <- insert_split s b offset repl;
+    let s := insert_stitch s b first last lastk end_block added_ft in
     let xb := the_blk s b in
     let s := edit_byte_interval s bi (boff xb + bsize xb) repl (p_data p) [b] in
-    let base := boff xb + offset in
-    (* the patch's blocks, expressions, edges, symbols, proxies, tables *)
-    let s := fold_left (fun s pb => let '(id, k, o, sz) := pb in set_blk s id (mk_blk k (Some bi) (base + o) sz)) (p_blocks p) s in
-    let iv := the_ival s bi in
-    let s := set_ivals s (aset bi (mk_ival (isect iv) (icontents iv) (dupdate (isymex iv) (drekey (fun k => base + k) (p_symex p)))) (ivals s)) in
-    let s := order_insert_after s b (pblock_ids p) in
-    let s := set_cfg s (fold_left (fun c e => cfg_add e c) pcfg (cfg s)) in
-    let s := set_rcache s (mk_rc (refs (rcache s)) (stab (rcache s) ++ p_syms p)) in
-    let s := set_proxies s (fold_left (fun l q => nadd q l) pprox (proxies s)) in
-    let s := set_align s (fold_left (fun a kv => aset (fst kv) (snd kv) a) (p_align p) (align s)) in
-    let s := set_misc s (map (fun it => let '(i, t) := it in if Nat.eqb i 1 then fold_left (fun l q => nadd q l) (p_encodings p) t else t)
-                             (combine (seq 0 (List.length (misc s))) (misc s))) in
-    let s := set_cfi s (fold_left (fun c kv => aset (fst kv) (snd kv) c) (p_cfi p) (cfi s)) in
-    let s := if bkind_eqb (bk x) KCode then
-               match aget b (fbb s) with
-               | Some f => fold_left (fun s pb => let '(id, k, _, _) := pb in
-                                                  if bkind_eqb k KCode then add_function_block_aux s id f else s) (p_blocks p) s
-               | None => s
-               end
-             else s in
-    (* symbolicExpressionSizes is table 2, keyed by the interval *)
-    let s := set_otabs s (map (fun it => let '(i, t) := it in
-                                         if Nat.eqb i 2 then
-                                           match p_symsizes p with
-                                           | [] => t
-                                           | _ => aset bi (dupdate (match aget bi t with Some d => d | None => [] end)
-                                                                   (drekey (fun k => base + k) (p_symsizes p))) t
-                                           end
-                                         else t)
-                              (combine (seq 0 (List.length (otabs s))) (otabs s))) in
+    let s := insert_contents s b bi (boff xb + offset) (bkind_eqb (bk x) KCode) p pcfg pprox in
     cleanup_modified_blocks s (b :: pblock_ids p ++ [end_block])
   | _, _, _ => Err AssertErr
   end.
